@@ -235,6 +235,60 @@ fn known_witnesses(ctx: &mut Ctx) {
     }
 }
 
+/// deterministic boundary stream: identical for every seed (see sborir::boundary_cases)
+fn boundary_stream<F: Flavour>(ctx: &mut Ctx) {
+    let v = boundary_value(F::FL);
+    let (p, _) = payload_with_marks(F::FL, &v);
+    assert_eq!(Ok(p), F::encode(&v_to::<F>(&v), 64), "harness IR encoder diverges from the implementation");
+    for (input, md, class) in boundary_cases(F::FL) {
+        let idx = ctx.cw.len();
+        ctx.report.count(&format!("det.{}.{}", F::FL.coq(), class));
+        case_bytes::<F>(ctx, idx, input, md, "deterministic");
+    }
+}
+
+/// the size codec on its own, on every boundary size / width / padding variant
+fn size_codec_stream(ctx: &mut Ctx) {
+    use sbor::{Decoder, Encoder};
+    for n in [0usize, 1, 127, 128, 16383, 16384, 2097151, 2097152, 0x0FFFFFFF, 0x10000000, 0x10000001, u32::MAX as usize, usize::MAX] {
+        let mut buf = Vec::new();
+        let r = catch(std::panic::AssertUnwindSafe(|| {
+            let mut e = BasicEncoder::new(&mut buf, 1);
+            e.write_size(n)
+        }));
+        let r2 = r.map(|x| x.map(|_| buf.clone()));
+        ctx.report.count(if matches!(r2, Ok(Ok(_))) { "det.writesize.ok" } else { "det.writesize.too_large" });
+        let term = format!("CWriteSize {} {}", n, coq_result(&r2, |b| coq_bytes(b), coq_enc_err));
+        ctx.report.case(&term, true);
+        push(ctx, term);
+    }
+    for (input, class) in read_size_inputs() {
+        let idx = ctx.cw.len();
+        let r = catch(std::panic::AssertUnwindSafe(|| {
+            let mut d = BasicDecoder::new(&input, 1);
+            d.read_size().map(|n| (n, input.len() - d.get_offset()))
+        }));
+        ctx.report.count(&format!("det.{}", class));
+        // ---- direct oracle: whatever read_size accepts is what write_size produces
+        match &r {
+            Ok(Ok((n, left))) => {
+                ctx.report.count("det.readsize.accepted");
+                let mut buf = Vec::new();
+                let w = BasicEncoder::new(&mut buf, 1).write_size(*n);
+                let consumed = &input[..input.len() - left];
+                if w.is_err() || buf != consumed {
+                    ctx.report.oracle_failure(idx, "", &format!("read_size accepts a non-canonical size prefix: {} decodes to {} whose encoding is {}", hex(consumed), n, hex(&buf)), json!({"stream": "size_codec", "input_hex": hex(&input)}));
+                }
+            }
+            Ok(Err(_)) => ctx.report.count("det.readsize.rejected"),
+            Err(p) => ctx.report.oracle_failure(idx, "", &format!("read_size panicked: {}", p), json!({"input_hex": hex(&input)})),
+        }
+        let term = format!("CReadSize {} {}", coq_bytes(&input), coq_result(&r, |(n, l)| format!("({}, {})", n, l), coq_dec_err));
+        ctx.report.case(&term, true);
+        push(ctx, term);
+    }
+}
+
 fn main() {
     let args = Args::parse();
     let thorough = args.tier == "thorough";
@@ -248,6 +302,10 @@ fn main() {
     {
         let mut ctx = Ctx { cw: &mut cw, report: &mut report, oracle_only: args.oracle_only };
         known_witnesses(&mut ctx);
+        size_codec_stream(&mut ctx);
+        boundary_stream::<FBasic>(&mut ctx);
+        boundary_stream::<FScrypto>(&mut ctx);
+        boundary_stream::<FManifest>(&mut ctx);
         for i in 0..args.cases {
             let mut rng = root.fork(i as u64);
             let idx = ctx.cw.len();
@@ -268,6 +326,18 @@ fn main() {
     report.floor("value.Basic", n / 12);
     report.floor("value.Scrypto", n / 12);
     report.floor("value.Manifest", n / 12);
+    for fl in [Fl::Basic, Fl::Scrypto, Fl::Manifest] {
+        for c in expected_boundary_classes(fl) {
+            report.floor(&format!("det.{}.{}", fl.coq(), c), 1);
+        }
+    }
+    for c in expected_read_size_classes() {
+        report.floor(&format!("det.{}", c), 1);
+    }
+    report.floor("det.writesize.ok", 9);
+    report.floor("det.writesize.too_large", 4);
+    report.floor("det.readsize.accepted", 10);
+    report.floor("det.readsize.rejected", 50);
     if !args.oracle_only {
         cw.write(&args.out, args.shards).expect("write cases");
     }
